@@ -413,6 +413,23 @@ def agentIadd (s : ESpace) (a : Aid) (v : Pos) : Except Err ESpace :=
   | .error e => .error e
   | .ok p => agentSet s a (vadd p v)
 
+/-- `agent.position += v` statement by statement, the state returned also when the call raises (as `move` does for the
+    legacy space): `tmp = agent.position` (the getter), `tmp += v` (`ndarray.__iadd__` writes into whatever the getter
+    handed out), `agent.position = tmp` (the setter).  `view = false` is the code as it is (repair CS2: the getter returns a
+    copy, so the `+=` touches no state); `view = true` is the code before the repair (the getter returned a view of the
+    agent's row: the sum was in the array before the setter looked at it) — kept so that "a rejected `+=` changes nothing"
+    is a statement that can fail. -/
+def agentIaddW (view : Bool) (s : ESpace) (a : Aid) (v : Pos) : ESpace × Except Err Unit :=
+  match agentGet s a with
+  | .error e => (s, .error e)
+  | .ok p =>
+    let sum := vadd p v
+    let s1 : ESpace :=
+      if view then (match s.a2i a with | some i => { s with buf := upd s.buf i sum } | none => s) else s
+    match agentSet s1 a sum with
+    | .error e => (s1, .error e)
+    | .ok s2 => (s2, .ok ())
+
 /-- `agent.position[j] = x`: a write into the copy the getter returned; the space is not involved
     (the result type has no state) -/
 def agentPoke (s : ESpace) (a : Aid) (j : Nat) : Except Err Unit :=
@@ -494,6 +511,16 @@ def agentIaddV (s : ESpace) (a : Aid) (v : Pos) : Except Err ESpace :=
     match bcast s.nd v with
     | .error e => .error e
     | .ok v' => agentSet s a (vadd q v')
+
+/-- … statement by statement with the state returned also on an exception (what the driver runs): a `v` numpy cannot
+    broadcast makes `tmp += v` raise before anything is written, whatever the getter handed out -/
+def agentIaddVW (view : Bool) (s : ESpace) (a : Aid) (v : Pos) : ESpace × Except Err Unit :=
+  match agentGet s a with
+  | .error e => (s, .error e)
+  | .ok _ =>
+    match bcast s.nd v with
+    | .error e => (s, .error e)
+    | .ok v' => agentIaddW view s a v'
 
 /-- `space.agent_positions[i] = p` for a `p` of any length (the index is looked at first) -/
 def rawWriteV (s : ESpace) (i : Nat) (p : Pos) : Except Err ESpace :=
